@@ -318,7 +318,7 @@ class MemPrims:
                 path.tags["list_unsupported"] = "next on %s" % (A.show(it)[:60],)
                 return None
             pos = path.tags.get(("ipos", inst), 0)
-            path.tags[("concrete_loop", frame.fid)] = True
+            I.mark_concrete_loop(path, frame, t)
             if pos >= len(seq):
                 path.events.append(("iter_next", "none"))
                 return [(A.NONE, path)]
